@@ -680,7 +680,13 @@ def ctype_reads(chk: Check, ctx):
 
 def _typestate(chk: Check, ctx, tag, allow_end=False, extra=(), handle_pred=None):
     extra = list(extra) + ctype_reads(chk, ctx)
-    res = check_typestate(chk, ctx, handle_pred or (lambda h: True), tag, allow_end=allow_end, extra_reads=extra)
+    def default_pred(h):
+        # file handles come from constructor parameters / open(); objects built in memory are not position-shared
+        if S.contains(h, lambda x: isinstance(x, tuple) and x and x[0] == "call" and x[1] in ("ext:io.BytesIO", ".stream_reader", "ext:zlib.decompressobj")):
+            return False
+        return True
+
+    res = check_typestate(chk, ctx, handle_pred or default_pred, tag, allow_end=allow_end, extra_reads=extra)
     for call, ok, why, h in res:
         chk.decide(ok, "K-TYPESTATE", f"{tag}:seek-before-read", call, why)
     return res
